@@ -157,7 +157,7 @@ def sub_queue(ctx, st):
     """internal/addrlist as a bounded priority set."""
     seed = str(ctx.seed)
     # (generator config, capacities, number of simulated behaviours or 0 = exhaustive enumeration)
-    plan = ctx.pick([("MC_AdmissionGen_ops2.cfg", "1,2", 0), ("MC_AdmissionGen_ops3c.cfg", "1,2", 0), ("MC_AdmissionGen_sim8.cfg", "2,3", 25)],
+    plan = ctx.pick([("MC_AdmissionGen_ops2.cfg", "1,2", 0), ("MC_AdmissionGen_ops3c.cfg", "2", 0), ("MC_AdmissionGen_sim8.cfg", "2,3", 25)],
                     [("MC_AdmissionGen_ops3w.cfg", "2", 0), ("MC_AdmissionGen_ops4c.cfg", "1,2", 0), ("MC_AdmissionGen_sim12.cfg", "1,2,3", 150)])
     for i, (cfg, caps, nsim) in enumerate(plan):
         sp = ctx.path("gen_ops%d.ndjson" % i)
